@@ -564,12 +564,17 @@ type HeightRecord struct {
 // History executes one model history (a path of the graph) through real ABCI with Commit.
 // With restart, the application object is thrown away after every Commit and a new one is opened on the committed store:
 // whatever a node keeps in memory between blocks must not matter (a restarted or state-synced replica has none of it).
-func (s *state) History(path []*graph.Edge, g *graph.Graph, restart bool) ([]HeightRecord, error) {
+func (s *state) History(path []*graph.Edge, g *graph.Graph, restart bool, assertInvariants ...bool) ([]HeightRecord, error) {
 	var e *env.Env
 	var recs []HeightRecord
 	var ctx sdk.Context
 	h := sha256.New()
 	flush := func() {
+		if len(assertInvariants) > 0 && assertInvariants[0] {
+			// a node started with --inv-check-period 1 runs every registered invariant at the end of every block on the block's
+			// own context: invariants only read, so the setting (node-local, not part of any block) must not matter
+			e.App.CrisisKeeper.AssertInvariants(ctx)
+		}
 		eb := e.App.EndBlock(abci.RequestEndBlock{Height: ctx.BlockHeight()})
 		for _, ev := range eb.Events {
 			fmt.Fprintf(h, "EE|%s|%v\n", ev.Type, ev.Attributes)
@@ -669,7 +674,7 @@ func Histories(file string, n, depth, repeat int, seed int64) (map[string][]Heig
 		for r := 0; r < repeat; r++ {
 			var recs []HeightRecord
 			var herr error
-			if p := env.Try(func() { recs, herr = s.History(path, g, r%2 == 1) }); p != "" || herr != nil {
+			if p := env.Try(func() { recs, herr = s.History(path, g, r%3 == 1, r%3 == 2) }); p != "" || herr != nil {
 				fs = append(fs, walk.Finding{Prop: "C10", Kind: "panic", Sig: "chain.history.panic", Msg: fmt.Sprintf("history panicked through ABCI: %s %v", p, herr), Path: walk.PathActs(path)})
 				break
 			}
@@ -679,7 +684,7 @@ func Histories(file string, n, depth, repeat int, seed int64) (map[string][]Heig
 				continue
 			}
 			if fmt.Sprint(first) != fmt.Sprint(recs) {
-				fs = append(fs, walk.Finding{Prop: "C11", Kind: "mismatch", Sig: map[bool]string{false: "chain.replica.in-process", true: "chain.replica.restart"}[r%2 == 1], Msg: map[bool]string{false: "two replicas in one process disagree on app hash / results", true: "a replica restarted after every commit disagrees with one that kept running (app hash / results)"}[r%2 == 1], Path: walk.PathActs(path), Expected: first, Observed: recs})
+				fs = append(fs, walk.Finding{Prop: "C11", Kind: "mismatch", Sig: []string{"chain.replica.in-process", "chain.replica.restart", "chain.replica.inv-check-period"}[r%3], Msg: []string{"two replicas in one process disagree on app hash / results", "a replica restarted after every commit disagrees with one that kept running (app hash / results)", "a replica that asserts the registered invariants after every block disagrees with one that never does (app hash / results)"}[r%3], Path: walk.PathActs(path), Expected: first, Observed: recs})
 				break
 			}
 		}
